@@ -516,3 +516,54 @@ RULES += [
     ("C03.PRESTATE", "the state a level-2 program resumes from is the state before the abandoned command (roll-back of pre-execution)", p_c02.rule_rollback),
     ("C03.PRESIB", "pre-execution agrees with the interpreter command by command", p_c02.rule_sib),
 ]
+
+
+# ------------------------------------------------------------------------------------------------ format-string position
+FMT_MACRO = re.compile(r"\b(?:print|println|eprint|eprintln|format|panic|unreachable|todo|unimplemented)!\s*[\(\[\{]\s*$|\b(?:write|writeln)!\s*[\(\[\{][^,;]*,\s*$|\b(?:assert|debug_assert)!\s*[\(\[\{][^;]*,\s*$")
+TEXT_TYPES = ("std::string::String", "&str", "str", "char", "&std::string::String")
+BRACE_FREE = {"hyeong::core::compile::make_indent": "spaces only"}
+
+
+def rule_fmtpos(ctx, R):
+    """Text computed from the program (captured output, values) is emitted as an *argument* of the emitted
+    print!/eprint!/format!-style macro, never as its format string: a `{` or `}` in it would be read as a placeholder
+    and rustc rejects the program (or prints something else)."""
+    fb = ctx.fb
+    n_tpl = n_holes = n_text = 0
+    for name in sorted(fb.bodies):
+        if not name.startswith(COMPILE):
+            continue
+        b = fb.bodies[name]
+        try:
+            ts = templates_of(b, fb)
+        except Exception as e:
+            R.fail("fmtpos:templates:%s" % name, "templates of %s cannot be recovered: %s" % (name, e), b.span)
+            continue
+        if ts:
+            R.analyse(name)
+        for ti, t in enumerate(ts):
+            n_tpl += 1
+            before = ""
+            for p in t.pieces:
+                if p[0] == "lit":
+                    before += p[1]
+                    continue
+                n_holes += 1
+                ty = (t.types or [None] * len(t.args))[p[1]] if t.types is not None and p[1] < len(t.types) else None
+                textual = ty is None or ty in TEXT_TYPES or "Num" in ty
+                o = t.args[p[1]]
+                while isinstance(o, tuple) and o and o[0] in ("ref", "deref") and len(o) >= 2 and isinstance(o[-1], tuple):
+                    o = o[-1]
+                const = isinstance(o, tuple) and o and o[0] == "const"
+                safe = isinstance(o, tuple) and o and o[0] == "call" and o[1] in BRACE_FREE
+                if textual and not const and not safe:
+                    n_text += 1
+                    fmtpos = FMT_MACRO.search(before) is not None
+                    R.check(not fmtpos, "fmtpos:%s:%d:%d" % (name.rsplit("::", 1)[-1], ti, p[1]),
+                            "computed text (%s, %s) is spliced into the emitted source as an argument, not in the format-string position of an emitted macro: ...%r{}" % (ty, show(o)[:50], before[-40:]), t.where)
+                before += "\x00"
+    R.floor("templates", n_tpl, 27, "format templates of compile.rs")
+    R.floor("computed_text_holes", n_text, 5, "holes filled with computed text")
+
+
+RULES += [("C03.FMTPOS", "computed text never lands in the format-string position of an emitted print!/format!-style macro", rule_fmtpos)]
